@@ -89,16 +89,13 @@ def run_scenarios(ctx: Ctx, res: Result, scs: list, tag: str, extra_oracle=None)
         evs, problems = (None, ["run failed"]) if r.get("label") is None else runrun.to_events(sc, r)
         long_job = any(j["dur"] > 1000 for j in sc["jobs"])
         nontrivial = long_job and (sc["M"] is None or len(sc["jobs"]) > sc["M"])
-        if sc.get("pause_round_trip"):
-            # Runner.v's EvPause is pause() + the start of the wait in one step - true of consumers whose pause() does not suspend
-            # (in-memory, Redis); with a pause that is a round trip the run is judged by the oracle only
-            res.add_case(repr(sc), nontrivial)
-            res.count("runs_with_a_suspending_pause (oracle only)")
-        elif evs is not None and not problems:
+        if evs is not None and not problems:
             term = runrun.case_term(sc, evs)
             cases.append((term, runrun.final_obs(sc, r), sc))
             res.add_case(term, nontrivial)
             res.count("trace_events", len(evs))
+            res.count("pause_round_trips_on_the_wire (EvPauseStart)", sum(1 for e in evs if e.startswith("(EvPauseStart")))
+            res.count("slots_freed_during_a_pause_round_trip (EvUnpauseHold)", sum(1 for e in evs if e.startswith("(EvUnpauseHold")))
         else:
             res.add_case(repr(sc), nontrivial)
             res.count("runs_without_labels")
